@@ -3,10 +3,10 @@
 # Applies a patch to a scratch copy of /repo's working tree (outside /repo and /verif), runs govc on it,
 # prints the verdict lines and removes the copy.
 patch=$(readlink -f "$1"); props=$2; shift 2
-cd /verif && . ./env.sh
+cd "$(dirname "$(readlink -f "$0")")/.." && . ./env.sh
 d=$(mktemp -d /tmp/mut-XXXXXX)
 trap 'rm -rf $d' EXIT
 rsync -a --exclude .git /repo/ $d/repo/
 if ! (cd $d/repo && patch -p1 -s < "$patch"); then echo "PATCH-FAILED $patch"; exit 3; fi
-./bin/govc check --props "$props" --repo $d/repo --evidence $d/ev --replays $d/rp --known /verif/known_findings.json "$@" 2>&1 | sed -e "s#$d/##g"
+./bin/govc check --props "$props" --repo $d/repo --evidence $d/ev --replays $d/rp --known known_findings.json --spec spec "$@" 2>&1 | sed -e "s#$d/##g"
 rc=${PIPESTATUS[0]}; [ "$rc" = 2 ] && echo "GOVC-ERROR (does the patched tree compile?)"; exit $rc
